@@ -146,11 +146,15 @@ func (m MIC) MarshalText() ([]byte, error) {
 type MHDR struct {
 	MType MType `json:"mType"`
 	Major Major `json:"major"`
+
+	// rfu holds the RFU bits (4..2) as they were received, so that the MIC of
+	// a received frame is calculated over the MHDR as it was received.
+	rfu uint8
 }
 
 // MarshalBinary marshals the object in binary form.
 func (h MHDR) MarshalBinary() ([]byte, error) {
-	return []byte{(byte(h.MType) << 5) | (byte(h.Major) & 0x03)}, nil
+	return []byte{(byte(h.MType) << 5) | (h.rfu & 0x1c) | (byte(h.Major) & 0x03)}, nil
 }
 
 // UnmarshalBinary decodes the object from binary form.
@@ -160,6 +164,7 @@ func (h *MHDR) UnmarshalBinary(data []byte) error {
 	}
 	h.MType = MType(data[0] >> 5)
 	h.Major = Major(data[0] & 0x03)
+	h.rfu = data[0] & 0x1c
 	return nil
 }
 
